@@ -141,10 +141,10 @@ where
             o.violate("trace_inconsistent", &format!("{site}:start-position"), "the step did not start from the sampler's positions".into());
             break;
         }
-        // exactly L leapfrog steps: 1 evaluation at the start + L in the loop + 1 final
-        if evals != l as u64 + 2 {
-            o.violate("evaluation_count", &format!("{site}:target-evaluations"), format!("one step with L = {l} evaluated the target {evals} times, expected {}", l + 2));
-        }
+        // (the number of target evaluations is NOT judged: the property fixes the trajectory, not how
+        // often the target is evaluated along it — an implementation may legitimately reuse the last
+        // in-loop evaluation; the count is only reported)
+        o.count("probe_steps_with_L_plus_2_evaluations", (evals == l as u64 + 2) as u64);
         for c in 0..nc {
             let x = &pos0[c * d..(c + 1) * d];
             let p = &mom[c * d..(c + 1) * d];
